@@ -321,6 +321,54 @@ fn default_true() -> bool {
     true
 }
 
+/// Recordings whose file reaches an exact absolute offset (4 KiB .. 128 KiB powers of two) at the END of one of its samples:
+/// constructed in two passes (mux once, read the sample's offset from the file, resize that sample by the difference, mux
+/// again and keep the case only if the aim was hit).  A writer that gathers output in fixed-size blocks changes its behaviour
+/// exactly there.  The aimed sample is a plain video frame in the middle of the history; both layouts, with and without audio.
+pub fn aimed_cases(_t: crate::engine::Tier) -> Vec<ValidCase> {
+    let mut out = Vec::new();
+    for (n, &target) in [4096u64, 8192, 16_384, 32_768, 65_536, 131_072, 65_536, 65_536, 65_536, 65_536, 131_072, 32_768].iter().enumerate() {
+        let codec = (n % 4) as u8;
+        let audio = if n % 3 == 1 { 1 } else if n % 3 == 2 { 7 } else { 0 };
+        let fast = n % 2 == 1;
+        let frames = [9usize, 5, 14, 30][n % 4];
+        let mut c = long_case(long_cfg(codec, audio, fast), 0, 0, 1, Expand { nv: 0, na: 0, vd: 3000, ad: 1920, vsize: 19, asize: 17, reorder_from: u32::MAX, key_every: 30, irregular_every: 0, bigs: vec![], shapes: true, uniform: None, post: vec![] });
+        c.expand = None;
+        let per = ((target / frames as u64).saturating_sub(40)).clamp(8, 60_000) as u16;
+        c.video = (0..frames + 3).map(|i| VGene { ddts: 3000, cts: 0, key: i == 0, size: if i < frames { per } else { 30 }, shape: 0, jit: 0, big: 0 }).collect();
+        if audio != 0 {
+            c.audio = (0..4).map(|_| AGene { dpts: 1920, size: 24, shape: 3, jit: 0 }).collect();
+        }
+        // first pass
+        let aim = |c: &ValidCase| -> Option<(usize, u64)> {
+            let l = lower(c);
+            let r = crate::exec::run_history(&l.cfg, &l.ops);
+            let p = crate::mp4check::parse(&r.out).ok()?;
+            let vt = crate::mp4check::video_track(&p.movie)?;
+            // the last sample whose end is at or below the target
+            let (j, sm) = vt.samples.iter().enumerate().filter(|(_, sm)| sm.offset + sm.size as u64 <= target).last()?;
+            Some((j, sm.offset + sm.size as u64))
+        };
+        let (j, end) = match aim(&c) {
+            Some(x) => x,
+            None => continue,
+        };
+        if j == 0 || j >= c.video.len() {
+            continue;
+        }
+        let grow = target - end;
+        if c.video[j].size as u64 + grow > 60_000 {
+            continue;
+        }
+        c.video[j].size += grow as u16;
+        match aim(&c) {
+            Some((j2, end2)) if j2 == j && end2 == target => out.push(c),
+            _ => {}
+        }
+    }
+    out
+}
+
 pub const FPS: [f64; 12] =
     [1.0, 10.0, 24000.0 / 1001.0, 24.0, 25.0, 30000.0 / 1001.0, 30.0, 50.0, 60000.0 / 1001.0, 60.0, 120.0, 240.0];
 
